@@ -14,7 +14,8 @@ from wire import to_wire, from_wire, canon, exc_class
 from props.common import scale, depth_of
 from props.container_common import CODECS, spec_parse, expected_meta, render, ParseError
 
-THEOREMS = ["c07_history", "c07_flush_reads_back", "c07_failed_write_contributes_nothing", "c07_header_never_changes"]
+THEOREMS = ["c07_history", "c07_flush_reads_back", "c07_failed_write_contributes_nothing", "c07_header_never_changes",
+            "c07_reopen_resumes", "c07_appendable_table", "Tables.appendable_table"]
 TARGETS = ["Properties.TablesContainer", "Properties.C07"]
 
 
